@@ -7,11 +7,17 @@ type ExecSpec struct {
 	Mode  string    `json:"mode"` // identity | reverse | shuffle | replay
 	Seed  uint64    `json:"seed,omitempty"`
 	Perms []PermRec `json:"perms,omitempty"` // explicit decisions (mode replay)
+	Coins []int     `json:"coins,omitempty"` // ordinals of cooperative fault points that fired (mode replay)
+}
+
+// frozenSpec is the explicit form of the decisions a simulation actually took.
+func frozenSpec(s *fileSim) ExecSpec {
+	return ExecSpec{Mode: "replay", Perms: s.Log, Coins: s.CoinLog}
 }
 
 func (e ExecSpec) sim() *fileSim {
 	if e.Mode == "replay" {
-		return replaySim(e.Perms)
+		return replaySim(e.Perms, e.Coins)
 	}
 	return newFileSim(e.Mode, e.Seed)
 }
@@ -95,4 +101,9 @@ func freeze(c *Case, ri *RunInfo) *Case {
 // sampling by seed.
 type Indexed interface {
 	GenAt(index int, seed uint64, tier string) *Case
+}
+
+// PostChecker properties run an auxiliary leg after the seeded sweep.
+type PostChecker interface {
+	Post(tier string, base uint64) ([]workerViolation, map[string]int)
 }
